@@ -25,6 +25,7 @@ ASSUMPTIONS = [
     'non-decreasing, 0 <= k; every spike\'s cluster is in the id list (docstring precondition)',
     'cluster labels are solver-enumerated (the lookup gather concretises them); times stay symbolic',
     'int32 overflow of counts and float->int truncation of inexact products are outside the model',
+    'forms added after seeding rounds: float32 spike times beyond 2**24 samples at 3 Hz (exact arithmetic in the symbolic run, real float32 in the replays; the oracle truncates float64(t32) * rate)',
 ]
 STUBS = []
 OUTSIDE = ['more spikes than the bound', 'inexact time*rate', 'count overflow']
